@@ -70,6 +70,8 @@ class time_limit:
 
         def handler(signum, frame):
             raise HangDetected()
+        import time
+        self.t0 = time.monotonic()
         self.old_handler = signal.signal(signal.SIGALRM, handler)
         self.old_timer = signal.setitimer(signal.ITIMER_REAL, self.seconds)
         return self
@@ -78,7 +80,9 @@ class time_limit:
         import signal
         signal.setitimer(signal.ITIMER_REAL, 0)
         signal.signal(signal.SIGALRM, self.old_handler)
+        import time
         remaining = self.old_timer[0]
         if remaining > 0:
-            signal.setitimer(signal.ITIMER_REAL, max(remaining - self.seconds, 1.0))
+            # re-arm the enclosing timer (the check's watchdog) with what is really left of it
+            signal.setitimer(signal.ITIMER_REAL, max(remaining - (time.monotonic() - self.t0), 1.0))
         return False
